@@ -22,7 +22,10 @@ ID = "C09"
 LEVEL = "exploration"
 RULE = (
     "case = one generated model (2-12 tensor objects, 2-18 initializers, an object may back several "
-    "initializers; sizes 0 (zero-element tensors) and tiny..8000 B incl. several > budget) x entry point "
+    "initializers; every object is of one of six tensor classes: own TensorProtocol implementation with/without "
+    "tofile, ir.Tensor subclass over an ndarray, ir.Tensor subclass materialising a framework array in "
+    "tobytes/tofile, ir.LazyTensor (cache on/off), ir.ExternalTensor on a source file of its own, ir.PackedTensor - "
+    "all logging their evaluations; sizes 0 (zero-element tensors) and tiny..8000 B incl. several > budget) x entry point "
     "(ir.save, with size_threshold_bytes=-1 when zero-byte tensors must be written, or "
     "external_data.convert_tensors_to_external) x max_workers 2-16 x max_in_flight_bytes "
     "1..>total x single-file/sharded (random shard limit, or a shard-by-shard plan mixing single-tensor "
@@ -62,6 +65,13 @@ def plan(tier: str) -> dict:
             "saves_compared_with_serial": 150 if quick else 3000,
             "oversized_reservations": 150 if quick else 3000,
             "shared_object_evaluations": 100 if quick else 2000,
+            # ... and per tensor class of the shared object (the 'one use at a time' clause is judged for each)
+            "shared_object_evaluations_protocol": 100 if quick else 2000,
+            "shared_object_evaluations_tensor": 60 if quick else 1200,
+            "shared_object_evaluations_adapter": 60 if quick else 1200,
+            "shared_object_evaluations_lazy": 60 if quick else 1200,
+            "shared_object_evaluations_external": 60 if quick else 1200,
+            "shared_object_evaluations_packed": 60 if quick else 1200,
             "budget_snapshots": 2000 if quick else 40000,
             "callback_calls": 1000 if quick else 20000,
             "line_yields": 500 if quick else 10000,
@@ -169,6 +179,8 @@ def _summary(spec: dict) -> dict:
         "mode": spec["mode"], "layout": spec.get("layout"), "api": spec.get("api"), "size_threshold_bytes": spec.get("threshold"),
         "workers": spec["workers"], "max_in_flight_bytes": spec["budget"],
         "sizes": [spec["objs"][o]["size"] for o in spec["uses"]], "uses": spec["uses"],
+        "classes": [o.get("base", "protocol") + ("+cache" if o.get("base") == "lazy" and o.get("lazy_cache") else "")
+                    for o in spec["objs"]],
         "max_shard": spec["max_shard"], "alignment": spec["alignment"], "fail": spec["fail"],
         "cb_fail": spec["cb_fail"], "profile": spec["profile"], "p_yield": spec["p_yield"],
     }
@@ -264,6 +276,8 @@ class Driver:
         ctx.count("callback_calls", st["callbacks"])
         ctx.count("tensor_evaluations", st["evals"])
         ctx.count("shared_object_evaluations", st["shared_evals"])
+        for base, n in st["shared_evals_by_base"].items():
+            ctx.count("shared_object_evaluations_" + base, n)
         ctx.count("injected_raises", st["injected_raises"])
         ctx.count("line_events", st["lines"])
         ctx.count("line_yields", st["yields"])
